@@ -202,8 +202,10 @@ def extra_gc(prop):
     """HTTP-level collection profile: object graphs through the API, ages by hook, GC at any point, every policy cell;
     the Upd.gcRepo model against the real repoGarbageCollect on the three stores, monitors C05.* / C06.*"""
     def run(o, tier):
+        # C06 "leaves no index entry without backing content" also holds for index.json on disk (directory monitors of C10)
+        extra = ("C10.index-entry", "C10.index-tags") if prop == "C06" else ()
         http_check(o, tier, prop, ["gc"], make_view(fields=("code", "dcd", "body")), o.cov.get("rule", "") + " | " + RULE % "gc (HTTP level)",
-                   monitors_prefix=prop + ".", n_quick=150, n_thorough=5000)
+                   monitors_prefix=prop + ".", n_quick=150, n_thorough=5000, extra_monitors=extra)
     return run
 
 
